@@ -69,6 +69,9 @@ def run(ctx):
              "use_spec_hashes on -> FileSpecHashes(<project>/.gwf/spec-hashes.json); off or unset -> NoopSpecHashes",
              f"get_spec_hashes selects {{on: {sel.get(True)}, off: {sel.get(False)}, unset: {sel.get(None)}}}; expected the file store under <project>/.gwf only when "
              "use_spec_hashes is set, the no-op store otherwise", gsh.where)
+    from .evalhelpers import cli_spec_switch_witness
+    report_witness(r2, "src/gwf/cli.py::main::spec-switch", "src/gwf/cli.py:1", cached_witness(ctx, "cli-spec-switch", cli_spec_switch_witness),
+                   "the store the commands get follows use_spec_hashes of the project configuration alone (3 settings x 2 environments, one of them all-\"0\")")
     reloc = sel.pop("relocated", None)
     if reloc is not None and reloc[0] is not Ellipsis and reloc[1]:
         p_ = str(reloc[0])
@@ -99,3 +102,6 @@ def run(ctx):
 
     r4 = ctx.rule("R4", "the spec test is part of the staleness decision (consulted first)")
     rule_guard_order(ctx, r4)
+    # "editing a spec re-runs that target and everything downstream": a stale target is submitted whatever became of its previous job (decision table of C02)
+    from .shared import import_rules
+    import_rules(ctx, r4, "C02", only={"R1"})
